@@ -172,6 +172,13 @@ package aper
 //@ requires bounds: (lowerBoundPtr == nil || (*lowerBoundPtr >= 0 && *lowerBoundPtr <= 65535)) && (upperBoundPtr == nil || *upperBoundPtr >= 0) && (lowerBoundPtr == nil || upperBoundPtr == nil || *lowerBoundPtr <= *upperBoundPtr)
 //@ ensures inv: vcInv(pd) && pd.byteOffset >= old(pd.byteOffset)
 //@ ensures alloc: len(result0) <= len(pd.bytes)+8
+// Fixed sizes (X.691 17.6, 17.7), the mirror image of appendOctetString's fixed2 / fixedn: at most two
+// octets are read where the cursor stands, more after alignment; the result is those octets.
+//@ let c0 := 8*pd.byteOffset+uint64(pd.bitsOffset)
+//@ let bo0 := pd.byteOffset
+//@ let bits0 := pd.bitsOffset
+//@ ensures fixed2: !(result1 == nil && !extensed && lowerBoundPtr != nil && upperBoundPtr != nil && *lowerBoundPtr == *upperBoundPtr && *upperBoundPtr >= 1 && *upperBoundPtr <= 2) || (8*pd.byteOffset+uint64(pd.bitsOffset) == c0+8*uint64(*upperBoundPtr) && int64(len(result0)) == *upperBoundPtr && vc.Forall(0, len(result0), func(t int) bool { return result0[t] == per.Extract(pd.bytes[bo0:], int(bits0), 8*int(*upperBoundPtr), t) }))
+//@ ensures fixedn: !(result1 == nil && !extensed && lowerBoundPtr != nil && upperBoundPtr != nil && *lowerBoundPtr == *upperBoundPtr && *upperBoundPtr > 2 && *upperBoundPtr <= 65535) || (pd.bitsOffset == 0 && pd.byteOffset == (c0+7)>>3+uint64(*upperBoundPtr) && int64(len(result0)) == *upperBoundPtr && vc.Forall(0, len(result0), func(t int) bool { return result0[t] == pd.bytes[(c0+7)>>3+uint64(t)] }))
 //@ assigns &pd.byteOffset, &pd.bitsOffset
 //@ loop octetString invariant inv (pd *perBitData, octetString OctetString, old_pd perBitData): vcInv(pd) && pd.byteOffset >= old_pd.byteOffset && uint64(len(octetString)) <= pd.byteOffset && len(pd.bytes) == len(old_pd.bytes)
 //@ loop octetString decreases (pd *perBitData): len(pd.bytes) - int(pd.byteOffset)
